@@ -62,7 +62,12 @@ func (g *collection) Empty() bool {
 }
 
 func (g *collection) Valid() bool {
-	return g.Rect().Valid()
+	for _, child := range g.children {
+		if !child.Valid() {
+			return false
+		}
+	}
+	return true
 }
 
 func (g *collection) Rect() geometry.Rect {
